@@ -27,6 +27,14 @@ def run(ctx):
                                              nqueries=0, ticks=(st == 'timesorted'))
         cfg = dict(strategy=st, max=mx, flow=flow, lag=0)
         expl.append((cfg, r_ops, w_ops, ctx.pick(1, 2), ctx.pick(30, 100), ctx.pick(120, 800)))
+  # the band between the soft and the hard limit only exists for MAX_CACHE_SIZE >= 20 (floor(1.05 * MAX) > MAX):
+  # operation-granularity schedules of a 25-store workload against MAX_CACHE_SIZE = 20 with flow control
+  for k, st in enumerate(cachesys.STRATEGIES if not ctx.quick else cachesys.STRATEGIES[ctx.seed % 2::2]):
+    r_ops, w_ops = cachesys.band_workload(ctx.rng)
+    expl.append((dict(strategy=st, max=20, flow=True, lag=0, coarse=True), r_ops, w_ops, 0, ctx.pick(3, 12), 2))
+    # a non-integer hard limit well above .5 (12 * 1.05 = 12.6): the 13th datapoint does not fit
+    r_ops, w_ops = cachesys.band_workload(ctx.rng, nstores=15)
+    expl.append((dict(strategy=st, max=12, flow=True, lag=0, coarse=True), r_ops, w_ops, 0, ctx.pick(2, 8), 2))
   # de-duplicate identical model configurations
   seen, m2 = set(), []
   for m in models:
